@@ -107,28 +107,66 @@ def check_base_init(model, res):
             res.discharged += 1
         else:
             res.add(_f('C05.ctor-contract', init, detail, msg, fn, construct='ExactSolver.__init__'))
-    # __call__
+    # __call__: decided on the value graph (aliases, temporaries and equivalent spellings are the same graph): for a
+    # representative closed-form solver, solver(r, t) must be _run(asarray(r), t) -- _run receives an array
+    # conversion of exactly the points passed and the time, and what __call__ returns is what _run returned
+    # (same names, every field the same normal form), so no record is added, dropped, reordered or altered there.
     call = base.methods.get('__call__')
     res.obligations += 1
-    ok = False
+    ok, why = False, 'method missing'
     if call is not None:
-        a = [x.arg for x in call.node.args.args]
-        rets = [n for n in ast.walk(call.node) if isinstance(n, ast.Return)]
-        if len(a) == 3 and len(rets) == 1 and isinstance(rets[0].value, ast.Call):
-            c = rets[0].value
-            if src_of(c.func) == '%s._run' % a[0] and len(c.args) == 2 and not c.keywords \
-                    and isinstance(c.args[1], ast.Name) and c.args[1].id == a[2] \
-                    and isinstance(c.args[0], ast.Call) and len(c.args[0].args) == 1 \
-                    and isinstance(c.args[0].args[0], ast.Name) and c.args[0].args[0].id == a[1]:
-                r = model.resolve_dotted(base.module, c.args[0].func)
-                if r is not None and r[0] == 'ext' and r[1] in ('numpy.asarray', 'numpy.asanyarray', 'numpy.array'):
-                    ok = True
+        ok, why = _call_dispatch(model, base, call)
     if ok:
         res.discharged += 1
     else:
         res.add(_f('C05.ctor-contract', call or base, '__call__ dispatch',
-                   'ExactSolver.__call__ is not `return self._run(numpy.asarray(r), t)`',
+                   'ExactSolver.__call__(r, t) is not equivalent to `self._run(numpy.asarray(r), t)`: %s' % why,
                    call.node if call else base.node, construct='ExactSolver.__call__'))
+
+
+REPRESENTATIVE = 'exactpack.solvers.noh.noh1:Noh'
+ARRAY_CONV = ('numpy.asarray', 'numpy.asanyarray', 'numpy.array', 'numpy.atleast_1d')
+
+
+def _call_dispatch(model, base, call):
+    from ..vg import Frame, Closure
+    from ..nf import NFEval
+    cls = model.get_class(REPRESENTATIVE)
+    runm = cls.find_method('_run')
+    if runm is None:
+        raise AnalysisError('%s has no _run' % REPRESENTATIVE)
+    outs = []
+    for via_call in (False, True):
+        b = Builder(model)
+        objn, _ = b.run_solver(cls, run=False)
+        r, t = b.make_input('r'), b.make_input('t')
+        b.frame = Frame(None, cls.module, {}, None)
+        if via_call:
+            out = b.call_closure(Closure(call, call.node, None, self_node=objn, cls=cls, module=call.module), [r, t], {}, call.node)
+            runs = [(at, args) for (at, callee, args, caller) in b.call_log if callee is runm]
+            if len(runs) != 1:
+                return False, '_run is called %d times' % len(runs)
+            a0, a1 = runs[0][1][-2:]
+            if not (a0.kind == 'call' and a0.val in ARRAY_CONV and a0.args and a0.args[0] is r):
+                return False, 'the points handed to _run are not an array conversion of exactly the points passed (list, ' \
+                              'tuple and array inputs would not be equivalent, or the points are altered)'
+            if a1 is not t:
+                return False, 'the time handed to _run is not the time passed'
+        else:
+            ra = b.mk('call', 'numpy.asarray', [r])
+            out = b.call_closure(Closure(runm, runm.node, None, self_node=objn, cls=runm.cls, module=runm.module), [ra, t], {}, runm.node)
+        if out is None or out.kind != 'call' or not out.args or out.args[0].kind != 'list':
+            return False, 'what is returned is not the solution object _run builds'
+        ev = NFEval(list(model.parameters_keys(cls) or []))
+        keys = []
+        for a in out.args[0].args:
+            v = ev.nf(a)
+            keys.append(v.key() if hasattr(v, 'key') else repr(v))
+        names = out.kw.get('names')
+        outs.append((out.val, keys, [x.val for x in names.args] if names is not None else None))
+    if outs[0] != outs[1]:
+        return False, 'the solution returned differs from the one _run returns (records or fields are re-indexed or altered after _run)'
+    return True, None
 
 
 def is_super_init_call(model, ci, fi, call):
